@@ -11,6 +11,8 @@ class P(HasTraits):
     ptb = Int(1)
     pre_pc = Int(1)
     pp_pe = Int(1)
+    xa = Int(1)
+    xpa = Int(1)
 
 
 class D(HasTraits):
